@@ -144,6 +144,64 @@ fn vtypes(l: &[VType]) -> String {
     format!("[{}]", v.join(", "))
 }
 
+const TARGET_NAMES: [(u8, &str); 22] = [
+    (0x00, "CLASS_TYPE_PARAMETER"),
+    (0x01, "METHOD_TYPE_PARAMETER"),
+    (0x10, "CLASS_EXTENDS"),
+    (0x11, "CLASS_TYPE_PARAMETER_BOUND"),
+    (0x12, "METHOD_TYPE_PARAMETER_BOUND"),
+    (0x13, "FIELD"),
+    (0x14, "METHOD_RETURN"),
+    (0x15, "METHOD_RECEIVER"),
+    (0x16, "METHOD_FORMAL_PARAMETER"),
+    (0x17, "THROWS"),
+    (0x40, "LOCAL_VARIABLE"),
+    (0x41, "RESOURCE_VARIABLE"),
+    (0x42, "EXCEPTION_PARAMETER"),
+    (0x43, "INSTANCEOF"),
+    (0x44, "NEW"),
+    (0x45, "CONSTRUCTOR_REFERENCE"),
+    (0x46, "METHOD_REFERENCE"),
+    (0x47, "CAST"),
+    (0x48, "CONSTRUCTOR_INVOCATION_TYPE_ARGUMENT"),
+    (0x49, "METHOD_INVOCATION_TYPE_ARGUMENT"),
+    (0x4A, "CONSTRUCTOR_REFERENCE_TYPE_ARGUMENT"),
+    (0x4B, "METHOD_REFERENCE_TYPE_ARGUMENT"),
+];
+
+/// One code-level type annotation: target kind, resolved target, type path,
+/// annotation type.
+fn tanno(t: &TypeAnnotation) -> String {
+    let tt = t.target.target_type();
+    let kind = TARGET_NAMES.iter().find(|(c, _)| *c == tt).map(|(_, n)| *n).unwrap_or("?");
+    let detail = match &t.target {
+        Target::LocalVar { table, .. } => {
+            let v: Vec<String> = table.iter().map(|r| format!("{}-{}@{}", r.start, r.end, r.slot)).collect();
+            format!("ranges=[{}]", v.join(","))
+        }
+        Target::Catch(i) => format!("exc={}", i),
+        Target::Offset { at, .. } => format!("at={}", at),
+        Target::TypeArgument { at, index, .. } => format!("at={} index={}", at, index),
+        Target::TypeParameter { index, .. } => format!("param={}", index),
+        Target::Supertype(i) => format!("index={}", i),
+        Target::TypeParameterBound { param, bound, .. } => format!("param={} bound={}", param, bound),
+        Target::Empty(_) => String::new(),
+        Target::FormalParameter(i) => format!("param={}", i),
+        Target::Throws(i) => format!("index={}", i),
+    };
+    let path: Vec<String> = t
+        .path
+        .iter()
+        .map(|s| match s.kind {
+            0 => "ARRAY".to_string(),
+            1 => "INNER_TYPE".to_string(),
+            2 => "WILDCARD".to_string(),
+            _ => format!("TYPE_ARGUMENT({})", s.arg),
+        })
+        .collect();
+    format!("{} {} path=[{}] type={}", kind, detail, path.join(","), name(&t.annotation.type_desc))
+}
+
 /// The listing. Sections: class header, fields, methods (code, exception
 /// table, line numbers, local variables, raw frames), inner classes.
 pub fn dump(s: &Sem) -> String {
@@ -213,6 +271,11 @@ pub fn dump(s: &Sem) -> String {
                     RawFrame::Full { locals, stack } => format!("full locals {} stack {}", vtypes(locals), vtypes(stack)),
                 };
                 writeln!(o, "  frame {} {}", at, d).unwrap();
+            }
+            let mut tl: Vec<String> = c.type_annotations.visible.iter().chain(c.type_annotations.invisible.iter()).map(tanno).collect();
+            tl.sort();
+            for l in tl {
+                writeln!(o, "  tanno {}", l).unwrap();
             }
         }
     }
